@@ -1257,7 +1257,22 @@ func (e *Exec) binop(op token.Token, x, y Value, xt types.Type) Value {
 		case token.OR, token.LOR:
 			return VBool{Or(a.T, b.T)}
 		}
+	case VSymStr:
+		switch op {
+		case token.EQL:
+			return VBool{e.deepEq(a, y)}
+		case token.NEQ:
+			return VBool{Not(e.deepEq(a, y))}
+		}
 	case VStr:
+		if _, ok := y.(VSymStr); ok {
+			switch op {
+			case token.EQL:
+				return VBool{e.deepEq(y, a)}
+			case token.NEQ:
+				return VBool{Not(e.deepEq(y, a))}
+			}
+		}
 		b := y.(VStr)
 		switch op {
 		case token.EQL:
@@ -1333,7 +1348,28 @@ func (e *Exec) deepEq(x, y Value) Term {
 	case VBool:
 		return Eq(a.T, y.(VBool).T)
 	case VStr:
+		if b, ok := y.(VSymStr); ok {
+			return e.deepEq(b, a)
+		}
 		return BoolC(a.S == y.(VStr).S)
+	case VSymStr:
+		var other []Value
+		switch b := y.(type) {
+		case VSymStr:
+			other = b.E
+		case VStr:
+			for i := 0; i < len(b.S); i++ {
+				other = append(other, VInt{byteC(uint64(b.S[i]))})
+			}
+		}
+		if len(other) != len(a.E) {
+			return BoolC(false)
+		}
+		r := BoolC(true)
+		for i := range a.E {
+			r = And(r, e.deepEq(a.E[i], other[i]))
+		}
+		return r
 	case VPtr:
 		return BoolC(a.C == y.(VPtr).C)
 	case VStruct:
@@ -1442,7 +1478,12 @@ func (e *Exec) convert(x Value, from, to types.Type) Value {
 			for i := 0; i < a.Len; i++ {
 				t := load(a.Arr.Elems[a.Off+i]).(VInt).T
 				if !t.Const {
-					e.fail("string(bytes) with symbolic bytes")
+					// not all bytes are concrete: a symbolic string (map key / comparison only)
+					el := make([]Value, a.Len)
+					for j := 0; j < a.Len; j++ {
+						el[j] = load(a.Arr.Elems[a.Off+j])
+					}
+					return VSymStr{el}
 				}
 				bs[i] = byte(t.U.Uint64())
 			}
@@ -1450,6 +1491,16 @@ func (e *Exec) convert(x Value, from, to types.Type) Value {
 		}
 		return a
 	case VSymSlice:
+		return a
+	case VSymStr:
+		if _, ok := to.Underlying().(*types.Slice); ok {
+			n := len(a.E)
+			arr := newCell(types.NewArray(types.Typ[types.Uint8], int64(n)))
+			for i := 0; i < n; i++ {
+				arr.Elems[i].V = a.E[i]
+			}
+			return VSlice{arr, 0, n, n}
+		}
 		return a
 	case VPtr:
 		return a
@@ -1575,6 +1626,8 @@ func (e *Exec) builtin(b *ssa.Builtin, args []Value, c *ssa.CallCommon) Value {
 			return VInt{lenC(a.Len)}
 		case VStr:
 			return VInt{lenC(len(a.S))}
+		case VSymStr:
+			return VInt{lenC(len(a.E))}
 		case VArray:
 			return VInt{lenC(len(a.E))}
 		case VSymSlice:
@@ -2165,6 +2218,15 @@ func (e *Exec) noteHashApp(name string, in []Term, out Term) {
 }
 
 func (e *Exec) predTerm(name string, in []Term) Term {
+	if !intMode && len(in) > 0 && len(in) <= 512 {
+		// one argument per byte: equal inputs are recognised by congruence closure on the
+		// byte terms (a single wide concatenation made z3 bit-blast 1024-bit equalities and
+		// time out when two inputs were equal byte by byte)
+		f := fmt.Sprintf("predb_%s_%d", name, len(in))
+		sig := strings.Repeat("(_ BitVec 8) ", len(in))
+		e.sol.DeclareFun(f, "("+strings.TrimSpace(sig)+") Bool")
+		return app(SBool, f, in...)
+	}
 	arg, w := e.concatBytes(in)
 	f := fmt.Sprintf("pred_%s_%d", name, len(in))
 	e.sol.DeclareFun(f, fmt.Sprintf("((_ BitVec %d)) Bool", w))
